@@ -30,9 +30,7 @@ func (g *Group) lazy() *simrt.Group {
 func (g *Group) Go(f func() error) { g.lazy().Go(f) }
 func (g *Group) Wait() error       { return g.lazy().Wait() }
 
-// SetLimit / TryGo are not emitted by the generator; they exist so that a change
-// that starts using them is a visible harness failure instead of a compile error.
-func (g *Group) SetLimit(n int) { panic("verifsim/errgroup: SetLimit is not simulated") }
-func (g *Group) TryGo(f func() error) bool {
-	panic("verifsim/errgroup: TryGo is not simulated")
-}
+// SetLimit / TryGo are not emitted by the generator today; they are simulated with x/sync's semantics
+// (Go blocks while the limit is reached) so that a change that starts using them is judged, not rejected.
+func (g *Group) SetLimit(n int)            { g.lazy().SetLimit(n) }
+func (g *Group) TryGo(f func() error) bool { return g.lazy().TryGo(f) }
